@@ -149,6 +149,18 @@ impl C10 {
                     }
                 }
             }
+            "adversarial" => {
+                // the adversarial-operand programs of C02 (every operator and method on boundary
+                // values, each failure caught and printed): arithmetic that overflow checks see and
+                // optimised builds wrap must still give the same answer everywhere
+                for (k, chunk) in bytes.chunks(64).enumerate().take(16) {
+                    if chunk.len() < 8 {
+                        continue;
+                    }
+                    let (main, modules) = crate::props::c02::matrix_program(chunk);
+                    progs.push(Prog { id: format!("a{}", k), main, modules, nontrivial: true });
+                }
+            }
             _ => {
                 for (k, chunk) in bytes.chunks(48).enumerate().take(24) {
                     if chunk.len() < 8 {
@@ -193,11 +205,12 @@ impl Property for C10 {
         vec![
             Family { name: "scripts", kind: FamilyKind::Enumerated { count: (scripts().len() as u64 + 19) / 20, exhaustive: true } },
             Family { name: "generated", kind: FamilyKind::Random { cases: if q { 240 } else { 3_000 }, max_len: 48 * 24 } },
+            Family { name: "adversarial", kind: FamilyKind::Random { cases: if q { 120 } else { 2_000 }, max_len: 64 * 16 } },
         ]
     }
 
     fn rule(&self) -> String {
-        "cases: batches of up to 24 generated programs (fiber, class, scope, iteration and mixed profiles, plus allocation loops of >=700 iterations that cross the 64 KiB collection threshold many times) and batches of 20 repository scripts (with a loader serving the script corpus). Each batch is run by the plain runner binary (no hooks, fresh interpreter per program) built in every configuration of the matrix: quick = {dev, release, release+safe_stack+safe_active_fiber+safe_vm_opcodes+safe_class_lookup, release+debug_stress_gc}; thorough = dev + all 32 subsets of the five feature switches under release. Oracle: every configuration prints the same values and ends with the same outcome, error kind and messages (addresses normalised) as the first; a runner crash is a violation. Generated programs are first filtered to those on which the hooked in-process run agrees with the reference interpreter and that avoid the recorded exception defects. Non-trivial: the program switches fibers, recurses deeper than 8 frames, or is an allocation loop; distinct by batch text.".into()
+        "cases: batches of up to 24 generated programs (fiber, class, scope, iteration and mixed profiles, plus allocation loops of >=700 iterations that cross the 64 KiB collection threshold many times) batches of 16 adversarial-operand programs (the C02 generator: every operator, built-in and method applied to boundary values — +-2^63, huge ranges, NaN, -0, 2^53 — with every failure caught and its class printed), and batches of 20 repository scripts (with a loader serving the script corpus). Each batch is run by the plain runner binary (no hooks, fresh interpreter per program) built in every configuration of the matrix: quick = {dev, release, release+safe_stack+safe_active_fiber+safe_vm_opcodes+safe_class_lookup, release+debug_stress_gc}; thorough = dev + all 32 subsets of the five feature switches under release. Oracle: every configuration prints the same values and ends with the same outcome, error kind and messages (addresses normalised) as the first; a runner crash is a violation. Generated programs are first filtered to those on which the hooked in-process run agrees with the reference interpreter and that avoid the recorded exception defects. Non-trivial: the program switches fibers, recurses deeper than 8 frames, or is an allocation loop; distinct by batch text.".into()
     }
 
     fn assumptions(&self) -> Vec<String> {
